@@ -307,3 +307,27 @@ func VerifM3u8VsRollover() {
 	}
 	symapi.Reach("end")
 }
+
+// VerifM3u8Stable (C10): the playlist handed to one caller is that caller's own: it keeps its
+// content (token included) while it is being sent, whatever other callers fetch meanwhile.
+func VerifM3u8Stable() {
+	pl := NewPlaylist()
+	for i := 0; i < 3; i++ {
+		pl.segments = append(pl.segments, &segment{sequenceNo: 7 + i, duration: 5, file: &verifFile{}, uri: "/s/" + strconv.Itoa(7+i) + ".ts"})
+	}
+	t1 := []string{"", "alice"}[symapi.Choose("firstToken", 2)]
+	b1, err := pl.M3u8(t1)
+	symapi.Assert(err == nil && len(b1) > 0, "playlist-served")
+	snapshot := string(b1)
+	// other players fetch the playlist (with their own tokens, after a rollover) while the
+	// first response is still being written out
+	n := symapi.IntRange("otherFetches", 1, 2)
+	for i := 0; i < n; i++ {
+		if symapi.Bool("rollover") {
+			pl.addSegment(&segment{sequenceNo: 10 + i, duration: 9, file: &verifFile{}, uri: "/s/" + strconv.Itoa(10+i) + ".ts"})
+		}
+		pl.M3u8("bob-token-that-is-longer")
+	}
+	symapi.Assert(string(b1) == snapshot, "served-playlist-unchanged-by-later-fetches")
+	symapi.Reach("end")
+}
